@@ -92,6 +92,13 @@ def run_reader_check(prop, tier):
         sets.append(("subsets", p, 0))
         # the same chunk lists with a unit of 3 000 000 bytes: runs of adjacent chunks of 9 - 30 MB (beyond any 8 / 16 MiB staging on the way)
         # the same against other wordings of a conforming server: Content-Range a-b/N with the usual extra headers in lower case; Content-Range a-b/* with chunked coding
+        # bodies that arrive in fragments (no failure involved): one byte at a time, two bytes, exactly one unit at a time (a fragment that is exactly a chunk),
+        # two units - the request sequence must not depend on how a correct body is framed
+        sets.append(("subsets_frag1", p, 1))
+        sets.append(("subsets_frag2", p, 2))
+        sets.append(("subsets_scale4096_frag4096", p, 4096, {"scale": 4096}))
+        sets.append(("subsets_scale4096_frag8192", p, 8192, {"scale": 4096}))
+        sets.append(("subsets_scale70000_frag3000", p, 3000, {"scale": 70000, "every": 2 if tier == "quick" else 1}))
         sets.append(("subsets_dialect1", p, 0, {"dialect": 1}))
         sets.append(("subsets_dialect2", p, 0, {"dialect": 2}))
         sets.append(("subsets_scale3000000", p, 0, {"scale": 3000000, "every": 3 if tier == "quick" else 1}))
